@@ -349,58 +349,80 @@ fn record_pat_in_frag(
     true
 }
 
-/// `counts`: (function bodies seen, function bodies inside the fragment); returns whether `e`
-/// itself is inside the fragment.
-fn in_frag(e: &Expr, counts: &mut (u64, u64)) -> bool {
+/// Fragment membership of `e`: `.0` for F1 (`inF []`), `.1` for F2 relative to `phi` (`inF Φ`:
+/// the function variables in scope — names bound by enclosing `Named::Recursive` groups to
+/// closures with at least one parameter — with their arity). `counts`: (function bodies seen,
+/// bodies inside F1, bodies inside F2).
+fn in_frag(e: &Expr, phi: &Vec<(usize, usize)>, counts: &mut (u64, u64, u64)) -> (bool, bool) {
     let env = empty_env();
+    let key = |s: &Symbol| s.as_str().as_ptr() as usize;
+    let and = |a: (bool, bool), b: (bool, bool)| (a.0 && b.0, a.1 && b.1);
     match e {
-        Expr::Const(..) | Expr::Ident(..) => true,
-        Expr::Cast(e, _) => in_frag(e, counts),
+        Expr::Const(..) => (true, true),
+        // a function variable may only be the head of a call
+        Expr::Ident(id, _) => (true, !phi.iter().any(|p| p.0 == key(&id.name))),
+        Expr::Cast(e, _) => in_frag(e, phi, counts),
         Expr::Let(lb, body) => match &lb.expr {
             Named::Expr(b) => {
-                let a = in_frag(b, counts);
-                let c = in_frag(body, counts);
-                a && c
+                let a = in_frag(b, phi, counts);
+                let c = in_frag(body, phi, counts);
+                and(a, c)
             }
             Named::Recursive(cs) => {
+                let mut phi2 = phi.clone();
                 for c in cs {
-                    let ok = in_frag(c.expr, counts);
-                    counts.0 += 1;
-                    if ok {
-                        counts.1 += 1;
+                    if !c.args.is_empty() {
+                        phi2.push((key(&c.name.name), c.args.len()));
                     }
                 }
-                in_frag(body, counts);
-                false
+                for c in cs {
+                    let ok = in_frag(c.expr, &phi2, counts);
+                    counts.0 += 1;
+                    if ok.0 {
+                        counts.1 += 1;
+                    }
+                    if ok.1 {
+                        counts.2 += 1;
+                    }
+                }
+                in_frag(body, &phi2, counts);
+                (false, false)
             }
         },
         Expr::Call(f, args) => {
-            let head_ok = match f {
+            let mut all = (true, true);
+            for a in args.iter() {
+                all = and(all, in_frag(a, phi, counts));
+            }
+            let head = match f {
                 Expr::Ident(id, _) => {
                     let nm = id.name.as_str();
-                    (nm == "&&" || nm == "||" || PRIM_INSTRS.contains(&nm)) && args.len() == 2
+                    if nm == "&&" || nm == "||" || nm.starts_with('#') {
+                        let ok = (nm == "&&" || nm == "||" || PRIM_INSTRS.contains(&nm)) && args.len() == 2;
+                        (ok, ok)
+                    } else {
+                        (false, phi.iter().rev().find(|p| p.0 == key(&id.name)).map_or(false, |p| p.1 == args.len()))
+                    }
                 }
-                _ => false,
+                other => {
+                    in_frag(other, phi, counts);
+                    (false, false)
+                }
             };
-            in_frag(f, counts);
-            let mut all = true;
-            for a in args.iter() {
-                all &= in_frag(a, counts);
-            }
-            head_ok && all
+            and(head, all)
         }
         Expr::Data(id, args, _) => {
-            let mut all = true;
+            let mut all = (true, true);
             for a in args.iter() {
-                all &= in_frag(a, counts);
+                all = and(all, in_frag(a, phi, counts));
             }
             let mut dummy = Namer::default();
             let k = data_kind(&mut dummy, id);
             let kind_ok = k.starts_with("(rec") || k == "arr" || k.starts_with("(var (tag");
-            kind_ok && all
+            and((kind_ok, kind_ok), all)
         }
         Expr::Match(scrut, alts) => {
-            let mut all = in_frag(scrut, counts);
+            let mut all = in_frag(scrut, phi, counts);
             let typ = alts[0].pattern.env_type_of(&env);
             let typ = resolve::remove_aliases_cow(&env, &mut NullInterner, typ.remove_forall());
             for alt in alts.iter() {
@@ -415,8 +437,8 @@ fn in_frag(e: &Expr, counts: &mut (u64, u64)) -> bool {
                     }
                     _ => false,
                 };
-                let b = in_frag(alt.expr, counts);
-                all &= pat_ok && b;
+                let b = in_frag(alt.expr, phi, counts);
+                all = and(all, and((pat_ok, pat_ok), b));
             }
             all
         }
@@ -647,11 +669,14 @@ fn process(vm: &Thread, name: &str, src: &str) -> String {
         })
         .unwrap_or(0);
     let bc = module_sexp(&mut n, &cv.module);
-    let mut frag = (0u64, 0u64);
-    let top = in_frag(cv.core_expr.value.expr(), &mut frag);
+    let mut frag = (0u64, 0u64, 0u64);
+    let top = in_frag(cv.core_expr.value.expr(), &vec![], &mut frag);
     frag.0 += 1;
-    if top {
+    if top.0 {
         frag.1 += 1;
+    }
+    if top.1 {
+        frag.2 += 1;
     }
     let mut globals = String::from("(");
     for g in &cv.module.module_globals {
@@ -678,7 +703,7 @@ fn process(vm: &Thread, name: &str, src: &str) -> String {
         Ok(Ok(v)) => format!("(ok {})", surf::canon_value(v.value.get_variant())),
         Ok(Err(e)) => surf::classify_error(&format!("{}", e)),
     };
-    serde_json::json!({"core": core, "bc": bc, "globals": globals, "result": result, "nfun": nfun, "outside": outside, "se_idx": se_idx, "frag_total": frag.0, "frag_in": frag.1}).to_string()
+    serde_json::json!({"core": core, "bc": bc, "globals": globals, "result": result, "nfun": nfun, "outside": outside, "se_idx": se_idx, "frag_total": frag.0, "frag_in": frag.1, "frag_in2": frag.2}).to_string()
 }
 
 fn child(optimize: bool) {
@@ -816,10 +841,15 @@ fn main() {
                 }
             }
             out.case(&format!("runbc {} {}", globals, bc), &result);
-            let (ft, fi) = (v["frag_total"].as_u64().unwrap_or(0), v["frag_in"].as_u64().unwrap_or(0));
+            let (ft, fi, f2) = (
+                v["frag_total"].as_u64().unwrap_or(0),
+                v["frag_in"].as_u64().unwrap_or(0),
+                v["frag_in2"].as_u64().unwrap_or(0),
+            );
             out.add("function-bodies", ft);
             out.add("function-bodies-in-proved-fragment-F1", fi);
-            out.case(&format!("fragcount {}", core), &format!("({} {})", ft, fi));
+            out.add("function-bodies-in-proved-fragment-F2(calls-of-known-closures)", f2);
+            out.case(&format!("fragcount {}", core), &format!("({} {} {})", ft, fi, f2));
         }
     }
     out.finish();
